@@ -61,6 +61,19 @@ def run(chk, repo):
     from .c02 import rounding
     chk.doc("R02.2", "fixed-point constants are rounded (shared with C02)")
     rounding(chk, repo, d)
+    # what a condition compares: the signedness and the width its operands
+    # report select the jump (signed / unsigned, 32 / 64 bit) - the operator
+    # tables of C01 are necessary conditions here; so is the strictness of
+    # the packet-size guards (shared with C05 / C07)
+    from .c01 import r2_algebra, r4_formats
+    chk.doc("R01.3", "operator signedness table (shared with C01)")
+    r2_algebra(chk, repo, d)
+    chk.doc("R01.4", "format -> size and width (shared with C01)")
+    r4_formats(chk, repo, d)
+    from . import ebpfshared as sh
+    chk.doc("R03.7", "packet-size guards compare strictly (shared with "
+                     "C05 / C07)")
+    sh.guard_strictness(chk, repo, "R03.7")
 
 
 # statements that remove or insert instructions, allowed per function (read
